@@ -272,7 +272,13 @@ func leakKey(s string) string {
 		}
 	}
 	sort.Strings(fns)
-	return strings.Join(fns, ",")
+	var uniq []string
+	for i, f := range fns {
+		if i == 0 || f != fns[i-1] {
+			uniq = append(uniq, f)
+		}
+	}
+	return strings.Join(uniq, ",")
 }
 
 // C14: cancellation and Shutdown stop everything, once, wherever they land.
